@@ -150,7 +150,8 @@ def sweep(exe, scenario, xsl, xml, ks, mode="single", jobs=None, throw=None, rel
     if not ks:
         return []
     jobs = jobs or core.NPROC
-    nchunks = max(1, min(len(ks), jobs * 2))
+    # every chunk is one harness process (start-up + warm-up = 0.15-0.3 s): at least ~12 indices per chunk
+    nchunks = max(1, min(jobs, (len(ks) + 11) // 12))
     # interleave so that every chunk gets cheap (small k) and expensive (large k) indices
     chunks = [ks[i::nchunks] for i in range(nchunks)]
     recs = []
